@@ -68,6 +68,71 @@ Proof.
     apply find_in. exact F1.
 Qed.
 
+(* the locked part of a flight as the code has it after the F8 repair (Store.lookup_finish).
+   (a) the INSTALLING flight - the name is still unknown when the locked part runs: everything
+   [installed_like_any] says *)
+Lemma finish_installs_like_any (s : store V) n v b now : Inv s -> known s n = false ->
+  let '(s', fx) := lookup_finish s n v b now in
+  Inv s' /\ known s' n = true /\ has_handle s' n = true /\ snd (secret s' n) = Some true /\
+  entry s' n = Some (CE v b now false) /\
+  (forall now_ns, In (n, v) (requests (snapshot s' now_ns))) /\
+  (exists d, fx = [Flush d] /\ In (n, Some (v, b, now)) d).
+Proof. intros I K. rewrite (lookup_finish_unknown _ _ _ _ _ K). apply installed_like_any. exact I. Qed.
+
+(* (b) a flight finishing on a name that has a value by now (somebody else's lookup completed after
+   this flight's caller had found the name missing): a WORKING handle is handed out - Secret returns
+   it, calling it yields the bytes the store holds - and nothing else changes: same map (value,
+   version, stamp of every name), same watchers and flags, same configuration, nothing written to
+   the cache; the poller keeps requesting the name with the version the store holds *)
+Lemma finish_known_changes_nothing (s : store V) n v b now e : Inv s -> entry s n = Some e ->
+  let '(s', fx) := lookup_finish s n v b now in
+  Inv s' /\ m s' = m s /\ ws s' = ws s /\ allow s' = allow s /\ age s' = age s /\ fx = [] /\
+  (forall k, In k (hs s) -> In k (hs s')) /\
+  known s' n = true /\ has_handle s' n = true /\ snd (secret s' n) = Some true /\
+  entry s' n = Some e /\ (forall t, snd (read s' n t) = Some (val e)) /\
+  (forall now_ns, In (n, ver e) (requests (snapshot s' now_ns))).
+Proof.
+  intros I E. pose proof (lookup_finish_Inv n v b now I) as I'.
+  unfold lookup_finish in *. rewrite E in *. cbn [fst] in I'.
+  assert (F : find n (m s) = Some (Some e)).
+  { unfold entry in E. destruct (find n (m s)) as [[e'|]|]; congruence. }
+  assert (K : known s n = true) by (unfold known; rewrite F; reflexivity).
+  unfold secret_locked in *. rewrite K in *.
+  set (s' := if has_handle s n then s else with_hs s (n :: hs s)) in *. cbn [fst] in I'. cbn [fst].
+  assert (Em : m s' = m s) by (unfold s'; destruct (has_handle s n); reflexivity).
+  assert (Eh : has_handle s' n = true).
+  { unfold s'. destruct (has_handle s n) eqn:H; [exact H|]. unfold has_handle, mem. cbn [hs with_hs existsb].
+    rewrite (proj2 (neqb_true n n) eq_refl). reflexivity. }
+  assert (K' : known s' n = true) by (unfold known; rewrite Em, F; reflexivity).
+  split; [exact I'|]. split; [exact Em|].
+  split; [unfold s'; destruct (has_handle s n); reflexivity|].
+  split; [unfold s'; destruct (has_handle s n); reflexivity|].
+  split; [unfold s'; destruct (has_handle s n); reflexivity|].
+  split; [reflexivity|].
+  split; [intros k Hk; unfold s'; destruct (has_handle s n); [exact Hk|right; exact Hk]|].
+  split; [exact K'|]. split; [exact Eh|]. split.
+  { unfold secret, secret_locked. rewrite K'. destruct (has_handle s' n); reflexivity. }
+  split; [unfold entry; rewrite Em, F; reflexivity|]. split.
+  - intros t. unfold read. rewrite Em, F. reflexivity.
+  - intros now_ns. unfold requests, snapshot. apply in_flat_map. exists (n, (false, ver e)). split; [|left; reflexivity].
+    apply in_flat_map. exists (n, Some e). split.
+    + rewrite Em. apply find_in. exact F.
+    + rewrite Eh. left. reflexivity.
+Qed.
+
+(* either way the caller holds a handle of a known name *)
+Lemma finish_gives_handle (s : store V) n v b now : Inv s ->
+  let s' := fst (lookup_finish s n v b now) in
+  Inv s' /\ known s' n = true /\ has_handle s' n = true /\ snd (secret s' n) = Some true.
+Proof.
+  intros I. destruct (entry s n) as [e|] eqn:E.
+  - pose proof (finish_known_changes_nothing n v b now I E) as L.
+    destruct (lookup_finish s n v b now) as [s' fx]. cbn [fst]. tauto.
+  - unfold lookup_finish. rewrite E.
+    pose proof (installed_like_any n v b now I) as L.
+    destruct (lookup_install s n v b now) as [s' fx]. cbn [fst]. tauto.
+Qed.
+
 End PolicyProofs.
 
 (* ------------------------------------------------------------------ time *)
@@ -355,8 +420,63 @@ Theorem success_all_joined (s : lstate) t f d v b :
 Proof.
   intros Ef Es I. cbn [step]. rewrite Ef, Es. cbn [done waiting fl lst log]. split.
   - intros i Hi. apply in_or_app. right. apply in_map_iff. exists i. auto.
-  - repeat split. all: unfold install; pose proof (installed_like_any nm v b (Z.of_N (t / 1000)) I) as L;
-      destruct (lookup_install (lst s) nm v b (Z.of_N (t / 1000))) as [s2 fx]; cbn [fst]; tauto.
+  - repeat split. all: unfold install; pose proof (finish_gives_handle nm v b (Z.of_N (t / 1000)) I) as L;
+      cbn zeta in L; tauto.
+Qed.
+
+(* the flight that finds the name still unknown installs exactly the service's answer, stamped with
+   the instant of the install, undeclared *)
+Theorem success_installs (s : lstate) t f d v b :
+  fl s = Some f -> fscript f = SAns d v b -> Inv (lst s) -> known (lst s) nm = false ->
+  entry (lst (step s t EvFlight)) nm = Some (CE v b (Z.of_N (t / 1000)) false).
+Proof.
+  intros Ef Es I K. cbn [step]. rewrite Ef, Es. cbn [lst]. unfold install.
+  pose proof (finish_installs_like_any nm v b (Z.of_N (t / 1000)) I K) as L.
+  destruct (lookup_finish (lst s) nm v b (Z.of_N (t / 1000))) as [s2 fx]. cbn [fst]. tauto.
+Qed.
+
+(* a flight whose locked part finds the name valued (it was overtaken in the window between its
+   caller's unknown-name check and DoChan, which the timed model does not open: the statement is
+   about the step, for ANY store state) still gives every joined caller the handle, and the store
+   keeps its map, its watchers and their flags *)
+Theorem success_on_known_keeps (s : lstate) t f d v b e :
+  fl s = Some f -> fscript f = SAns d v b -> Inv (lst s) -> entry (lst s) nm = Some e ->
+  let s' := step s t EvFlight in
+  (forall i, In i (waiting s) -> In (i, RHandle, t) (done s')) /\
+  m (lst s') = m (lst s) /\ ws (lst s') = ws (lst s) /\ entry (lst s') nm = Some e /\
+  snd (secret (lst s') nm) = Some true /\ (forall t', snd (read (lst s') nm t') = Some (val e)).
+Proof.
+  intros Ef Es I E. cbn [step]. rewrite Ef, Es. cbn [done lst]. split.
+  - intros i Hi. apply in_or_app. right. apply in_map_iff. exists i. auto.
+  - unfold install. pose proof (finish_known_changes_nothing nm v b (Z.of_N (t / 1000)) I E) as L.
+    destruct (lookup_finish (lst s) nm v b (Z.of_N (t / 1000))) as [s2 fx]. cbn [fst]. tauto.
+Qed.
+
+(* inside the timed model (check and DoChan one step) a flight exists only while the name is unknown,
+   so there the finishing flight is always the installing one *)
+Definition KInv (s : lstate) : Prop := fl s <> None -> known (lst s) nm = false.
+
+Lemma step_KInv (s : lstate) t e : KInv s -> KInv (step s t e).
+Proof.
+  unfold KInv. intros H. destruct e as [i| |i]; cbn [step].
+  - destruct (known (lst s) nm) eqn:K.
+    + cbn [fl lst]. intros F. specialize (H F). congruence.
+    + destruct (fl s) as [f|]; [cbn [fl lst]; intros _; exact K|]. destruct (next_script s). cbn [fl lst]. intros _. exact K.
+  - destruct (fl s) as [f|] eqn:Ef; [|intros F; rewrite Ef in F; contradiction F; reflexivity].
+    destruct (fscript f); cbn [fl]; intros F; contradiction F; reflexivity.
+  - destruct (fl s) as [f|] eqn:Ef; [|cbn [fl]; intros F; contradiction F; reflexivity].
+    assert (K : known (lst s) nm = false) by (apply H; discriminate).
+    destruct (Nat.eqb (fowner f) i); [|cbn [fl lst]; intros _; exact K].
+    destruct (remove_nat i (waiting s)); [cbn [fl]; intros F; contradiction F; reflexivity|].
+    destruct (wins s); destruct (next_script s); cbn [fl lst]; intros _; exact K.
+Qed.
+
+Theorem run_KInv : forall fuel (s s' : lstate), KInv s -> run fuel s = Some s' -> KInv s'.
+Proof.
+  induction fuel as [|k IH]; intros s s' H R; cbn [Lookup.run] in R.
+  - destruct (earliest (candidates s)) as [[t e]|]; inversion R; subst. exact H.
+  - destruct (earliest (candidates s)) as [[t e]|]; [|inversion R; subst; exact H].
+    apply IH with (s := step s t e); auto. apply step_KInv. exact H.
 Qed.
 
 (* once installed, later callers get the handle at once and no request is sent *)
